@@ -46,6 +46,41 @@ def rnd(profile, quick, thorough):
             "thorough": [dict(profile=profile, steps=thorough[0], runs=thorough[1])]}
 
 
+def c06_custom(pid, tier, plan, scr, hbin, specdir):
+    """C06: TLC enumerates CheckTx inputs one per behaviour (common prefix); they are packed into one
+    behaviour per preset (prefix once, then every input followed by an empty block when admitted)."""
+    import json, random, os
+    import vlib
+    from check_common import classify
+    sd = vlib.seed()
+    cov = dict(states=0, transitions=0, traces_validated_against_impl=0, samples=[], mc_runs=[], recordings=[],
+               steps_validated=0, inputs_offered_to_checktx=0, admitted=0, notes=[], findings_other_properties=0)
+    cfgs = [("MC_Adm_1F.cfg", None), ("MC_Adm_1T.cfg", None), ("MC_Adm_2F.cfg", 1200 if tier == "quick" else None),
+            ("MC_Adm_2T.cfg", 800 if tier == "quick" else None)]
+    if tier == "thorough":
+        cfgs += [("MC_Adm_3F.cfg", 20000)]
+    recs = []
+    for cfg, sample in cfgs:
+        behs = vlib.bfs_schedules(specdir, "MC_Adm.tla", cfg, scr, timeout=1500)
+        cov["mc_runs"].append(vlib.bfs_schedules.last)
+        cov["states"] += vlib.bfs_schedules.last["distinct"]
+        cov["transitions"] += vlib.bfs_schedules.last["generated"]
+        prefix = behs[0][:-1]
+        inputs = [b[-1] for b in behs]
+        if sample and len(inputs) > sample:
+            random.Random(sd).shuffle(inputs)
+            inputs = inputs[:sample]
+        packed = list(prefix) + [dict(ev, reset=True) for ev in inputs]
+        rec, _ = vlib.record_behaviours(hbin, [packed], scr, name="adm-" + cfg.replace(".cfg", ""))
+        recs.append((rec, "tlc-enumerated CheckTx inputs:" + cfg, len(inputs)))
+        cov["inputs_offered_to_checktx"] += len(inputs)
+        if len(cov["samples"]) < 3:
+            cov["samples"].append(dict(source=cfg, input=inputs[0]))
+    cov["exhaustive"] = tier == "thorough"
+    violations, known_hits = classify(pid, recs, cov, scr, specdir)
+    return cov, violations, known_hits
+
+
 PLANS = {
     "C03": dict(mc=ENT_MC, sim=ENT_SIM, random=rnd("ent", (300, 3), (2000, 20)),
                 rule="TLC exhaustive on MC_Ent (all interleavings of raise/decide/whitelist/gov param change/time advance in small scope); behaviours = TLC-simulated schedules + seeded random histories executed on the real app; non-trivial = a recorded step (one ABCI call) validated against Chain!Step and all C03 monitors",
@@ -76,6 +111,9 @@ PLANS = {
                 rule="as C10; view = deposit, last release time, deposit-zero time of every stream, claim responses; monitor Sustained", assumptions=COMMON_ASSUME),
     "C12": dict(mc=STR_MC, sim=STR_SIM, sweep=STR_SWEEP, random=rnd("str", (300, 3), (2000, 20)),
                 rule="as C10; monitors: a stream operation the specification accepts is not refused by the code, and no stream transaction panics", assumptions=COMMON_ASSUME),
+    "C06": dict(custom=c06_custom,
+                rule="TLC (MC_Adm) enumerates every CheckTx input of the bounded input space (message sequences x fee classes x extra denomination x payer classes x two fee presets) and checks meta-properties of the ideal admission rule; every enumerated input (quick: all singles + a seeded sample of pairs) is offered to the real app.CheckTx on a committed prepared state; violation = admitted by the code and refused by the ideal rule; non-trivial = a distinct input",
+                assumptions=COMMON_ASSUME + ["only the direction 'code admits and the ideal rule refuses' is a violation; the converse is logged as a note"]),
 }
 
 HOOK_COMMITS = []
